@@ -17,7 +17,7 @@ pub const FLOORS: &[&str] = &[
     "stepped:JSR", "stepped:JSRR", "stepped:CALL", "stepped:in_recursion", "si_beyond_end",
     "end:detached_halt", "end:exit_command", "stack_on", "stack_off", "fixed", "random", "long_running",
     "more_than_65536_instructions_between_pauses", "breakpoint_by_label_offset", "reset_or_goto_between_steps",
-    "step_into_after_leaving_the_final_halt", "resumed_after_reset_with_breakpoints",
+    "step_into_after_leaving_the_final_halt", "resumed_after_reset_with_breakpoints", "labels_differing_in_case_only",
 ];
 
 pub struct Fixed {
@@ -309,7 +309,21 @@ fn random_case(seed: u64, i: u64) -> CaseOut {
         tame_endings: rng.chance(2, 3),
         ..Default::default()
     };
-    let built = gen_structured(&mut rng, &o);
+    let mut built = gen_structured(&mut rng, &o);
+    // two labels that differ in letter case only are two labels, to the assembler and to the debugger alike
+    let mut twins = false;
+    if rng.chance(1, 5) {
+        let names: Vec<String> = built.program.items.iter().filter_map(|it| match it { crate::refasm::Item::Stmt { label: Some(l), .. } => Some(l.clone()), _ => None }).collect();
+        if names.len() >= 2 {
+            let (a, b) = (names[0].clone(), names[names.len() - 1].clone());
+            let flipped: String = a.chars().map(|c| if c.is_ascii_lowercase() { c.to_ascii_uppercase() } else { c.to_ascii_lowercase() }).collect();
+            if flipped != a && !names.contains(&flipped) {
+                crate::refasm::rename_label(&mut built.program, &b, &flipped);
+                twins = true;
+                out.class("labels_differing_in_case_only");
+            }
+        }
+    }
     let img = match encode(&built.program) {
         Verdict::Accept(img) => img,
         _ => {
@@ -321,8 +335,8 @@ fn random_case(seed: u64, i: u64) -> CaseOut {
     let text = render(&built.program, &lay, &mut rng).text;
     let mut cmds = random_script(&mut rng, img.origin(), img.words.len() as u16, stack, 10);
     // breakpoints written as LABEL+k / ^k instead of a number, in front of the script
-    if !img.labels.is_empty() && rng.chance(1, 3) {
-        for _ in 0..1 + rng.below(3) {
+    if !img.labels.is_empty() && (twins || rng.chance(1, 3)) {
+        for _ in 0..1 + rng.below(3) + 2 * twins as u64 {
             let (name, idx) = rng.pick(&img.labels).clone();
             let base = img.origin().wrapping_add(idx as u16);
             let k = rng.range(-3, 6) as i32;
